@@ -21,8 +21,7 @@ RULE = ("2-4-d fields with distinct integer data, anisotropic counts and dyadic 
         "compared on every returned object. non-trivial = k mod 4 != 0 and at least two cells along one rotated axis")
 TRUSTED = ["harness/c12.py, harness/tcommon.py + driver JSON glue", "np.rot90 modelled by its flip/transpose definition"]
 ASSUMPTIONS = ["float cos/sin(k*pi/2) within 2^-50 of the exact integers (2^-36 relative bound on values, 2^-40 on corners)"]
-UNPROVED = ["rot90_geometry (centre of the image cell = R+Q(centre-R) through the np.rot90 index map) is checked on the real code for every cell; "
-            "the Lean theorems cover the group laws of quarter turns, the corner map, and the in-place/copy agreement (C13)"]
+UNPROVED = []
 BUDGET = {"quick": 90, "thorough": 900}
 
 
